@@ -52,6 +52,8 @@ def make_episodes(configs, clauses_for, extra_conform=(), observe=None):
             continue
         if "r_fixed" not in obs:
             wanted = [w for w in wanted if w != "C12_FixedPoint"]
+        if obs.get("solve_skipped"):
+            wanted = [w for w in wanted if w != "C17_solution"]
         conform = sorted((set(want) | set(extra_conform)) & CONFORMABLE & set(obs))
         eps.append({"id": k, "cfg": cfg, "obs": obs, "wanted": sorted(wanted), "conform": conform})
     return eps
@@ -109,7 +111,7 @@ def run_property(prop, tier, seed, *, clauses_for, n_quick, n_thorough, gen_kw=N
         configs += gen_configs(seed * 1000 + j, max(1, n // len(kws)), classes=classes, generator=generator, **kw)
     episodes = make_episodes(configs, clauses_for, extra_conform, observe=observe)
     by_id, tot = validate(episodes, chunk=chunk)
-    per_class, per_clause = {}, {}
+    per_class, per_clause, undecided = {}, {}, {}
     for e in episodes:
         cls = e["cfg"]["cls"]
         per_class[cls] = per_class.get(cls, 0) + 1
@@ -131,6 +133,12 @@ def run_property(prop, tier, seed, *, clauses_for, n_quick, n_thorough, gen_kw=N
                                set(o for c2 in [cl] for o in NEEDS.get(c2, []))}})
         for b in v["nonconf"]:
             rep.nonconform(f"{b}:{cls}")
+        for cl in v.get("undecided", []):
+            undecided[cl] = undecided.get(cl, 0) + 1
+    for cl, n in undecided.items():
+        if n * 4 > per_clause.get(cl, 0):
+            raise tlcrun.MachineryError(f"vacuity: clause {cl} undecided (32-bit overflow in TLC) in {n} of "
+                                        f"{per_clause.get(cl, 0)} episodes")
     missing = [c for c in (classes or drive.CLASSES) if not per_class.get(c)]
     if missing:
         raise tlcrun.MachineryError(f"vacuity: no configuration for {missing}")
@@ -147,6 +155,7 @@ def run_property(prop, tier, seed, *, clauses_for, n_quick, n_thorough, gen_kw=N
                         "design model; non-trivial = at least two cells on some axis; distinct by canonical hash",
         "exhaustive": False, "per_grid_class": per_class, "per_clause": per_clause,
         "skipped_ill_conditioned": sum(1 for e in episodes if e.get("skipped")),
+        "undecided_overflow": undecided,
         "design_model": {k: des[k] for k in des if k != "configs"},
         "samples": [{"cfg": {k: samp["cfg"][k] for k in ("cls", "faces", "bc")}, "wanted": samp["wanted"],
                      "verdict": by_id[samp["id"]]}],
